@@ -31,7 +31,14 @@ func (x *Exec) step(fr *Frame, st *State, in ssa.Instruction) {
 	case *ssa.IndexAddr:
 		fr.vals[i] = x.indexAddr(fr, st, i)
 	case *ssa.Index:
-		x.fail("Index on array/string value unsupported at %s", x.pos(i.Pos()))
+		if isString(i.X.Type()) {
+			sv := x.term(x.value(fr, i.X))
+			idx := x.toU64(x.value(fr, i.Index), i.Index.Type())
+			x.safety(fr, st, "bounds", "strindex", "(bvult "+idx+" (slen "+sv+"))", i.Pos())
+			fr.vals[i] = Scalar{T: "(select (sarr " + sv + ") " + idx + ")", Typ: i.Type()}
+			return
+		}
+		x.fail("Index on array value unsupported at %s", x.pos(i.Pos()))
 	case *ssa.UnOp:
 		fr.vals[i] = x.unop(fr, st, i)
 	case *ssa.BinOp:
